@@ -23,7 +23,7 @@ func (c11Service) RegisterModuleService(string, *serviceexported.ModuleService) 
 func VerifC11_OracleModuleService() {
 	verifExpect("same", "fresh-value", "old-value")
 	e := newVEnv(types.StoreKey, 10)
-	k := Keeper{cdc: e.cdc, storeKey: e.key, sk: c11Service{}}
+	k := NewKeeper(e.cdc, e.key, c11Service{})
 	var valueTime time.Time
 	if verifSymbolic() {
 		vt := verifInt64("valueTime")
